@@ -1,5 +1,11 @@
+/-
+  C12 — Text extraction follows the content-stream state diagram.
+  Model: Parsley/Model/Content.lean (+ regenerated Parsley/Gen/Operators.lean)
+  Spec : Parsley/Spec/Fig9.lean (ISO 32000-1 Table 51 + Figure 9, syntax trees, `expected`)
+-/
 import Parsley.Model.Content
 import Parsley.Spec.Fig9
+import Parsley.Lemmas.Content
 namespace Parsley.C12
 open Parsley Parsley.Content Parsley.Fig9
 
@@ -8,10 +14,479 @@ def nodeOf : PState → Node
 
 def allStates : List PState := [.content, .text, .path, .clipping, .inlineImage]
 
+theorem mem_allStates (s : PState) : s ∈ allStates := by cases s <;> simp [allStates]
+
+/-! ## 1. the regenerated operator table against Table 51 / Figure 9 -/
+
+/-- all 73 × 5 (row, state) pairs of the REGENERATED table (kernel evaluation) -/
 theorem table_rows_eq_fig9 :
     ∀ r ∈ Gen.operators, ∀ s ∈ allStates,
       (nextState s r.2.1 r.1).map nodeOf = step (nodeOf s) r.1 := by
   decide +kernel
 
-theorem transition_table_eq_fig9 : True := trivial
+/-- every operator of Table 51 is known to the implementation -/
+theorem fig9_ops_known : ∀ r ∈ catTable, (opinfo r.1).isSome = true := by
+  decide +kernel
+
+theorem opinfo_some_mem {name : Bytes} {ty : OpType} {oa : List ArgType}
+    (h : opinfo name = some (ty, oa)) : (name, ty, oa) ∈ Gen.operators := by
+  unfold opinfo at h
+  split at h
+  · rename_i r hf
+    have h1 := List.find?_some hf
+    have h2 := List.mem_of_find?_eq_some hf
+    have h3 : r.1 = name := by simpa using h1
+    have h4 : r.2 = (ty, oa) := by simpa using h
+    have : r = (name, ty, oa) := by
+      cases r with | mk a b => simp only at h3 h4; rw [h3, h4]
+    rw [← this]
+    exact List.mem_reverse.mp h2
+  · cases h
+
+theorem catOf_some_mem {name : Bytes} {c : Cat} (h : catOf name = some c) : (name, c) ∈ catTable := by
+  unfold catOf at h
+  split at h
+  · rename_i r hf
+    have h1 := List.find?_some hf
+    have h2 := List.mem_of_find?_eq_some hf
+    have h3 : r.1 = name := by simpa using h1
+    have h4 : r.2 = c := by simpa using h
+    have : r = (name, c) := by
+      cases r with | mk a b => simp only at h3 h4; rw [h3, h4]
+    rw [← this]; exact h2
+  · cases h
+
+theorem opinfo_none_catOf {name : Bytes} (h : opinfo name = none) : catOf name = none := by
+  cases hc : catOf name with
+  | none => rfl
+  | some c =>
+    have := fig9_ops_known _ (catOf_some_mem hc)
+    simp [h] at this
+
+/-- **transition_table_eq_fig9**: for EVERY operator name (in the table or not) and every state,
+    the implementation's transition (table lookup + the `match` of lines 271-328) is the
+    Figure-9 step of the independently written automaton; in particular the two agree on which
+    names are operators at all. -/
+theorem transition_table_eq_fig9 (s : PState) (name : Bytes) :
+    (match opinfo name with
+     | none => none
+     | some (ty, _) => (nextState s ty name).map nodeOf) = step (nodeOf s) name := by
+  cases h : opinfo name with
+  | none =>
+    simp only [step, opinfo_none_catOf h]
+  | some info =>
+    obtain ⟨ty, oa⟩ := info
+    exact table_rows_eq_fig9 _ (opinfo_some_mem h) s (mem_allStates s)
+
+/-- non-vacuity: `BT` moves page → text in both, `q` is refused inside a text object by both,
+    an unknown name is refused by both -/
+example : (opinfo opBT).isSome ∧ step .page Fig9.BT = some .text ∧ step .text [113] = none
+    ∧ opinfo [102, 111, 111] = none := by decide +kernel
+
+/-! ## 2. the loop over a token sequence against the Figure-9 run over the syntax tree -/
+
+/-- pointwise relation of two lists (core has no `Forall₂`) -/
+inductive All2 {α β : Type} (R : α → β → Prop) : List α → List β → Prop where
+  | nil : All2 R [] []
+  | cons {a b l₁ l₂} : R a b → All2 R l₁ l₂ → All2 R (a :: l₁) (b :: l₂)
+
+/-- what the tokenizer yields for an atom (the numeric value of a number is irrelevant to
+    the extractor: only its being a number is used) -/
+def AtomObj : Atom → Obj → Prop
+  | .num _, o => isNumObj o = true
+  | .name b, o => o = .name b
+  | .lit c, o => o = .str c
+  | .hex sp, o => o = .str (hexBytes (sp.filter (fun b => !Fig9.isWs b)))
+  | .bool v, o => o = .bool v
+  | .null, o => o = .null
+
+def OperandObj : Operand → Obj → Prop
+  | .atom a, o => AtomObj a o
+  | .arr _ els, o => ∃ l, o = .arr l ∧ All2 (fun e x => AtomObj e.1 x) els l
+  | .dict _ _, o => ∃ l, o = .dict l
+
+/-- token sequence of a list of operator instances -/
+inductive InstsToks : List Inst → List CSObj → Prop where
+  | nil : InstsToks [] []
+  | cons {i : Inst} {rest : List Inst} {objs : List Obj} {ts : List CSObj} :
+      All2 (fun a o => OperandObj a.1 o) i.args objs → InstsToks rest ts →
+      InstsToks (i :: rest) (objs.map CSObj.val ++ CSObj.op i.op :: ts)
+
+def toRes : Option (List Tok) → Res (List Tok)
+  | some ts => .ok ts
+  | none => .err .guard
+
+def objStr : Obj → Option Bytes
+  | .str v => some v
+  | _ => none
+
+theorem atomObj_str {a : Atom} {o : Obj} (h : AtomObj a o) : objStr o = a.strVal := by
+  cases a <;> simp only [AtomObj] at h <;> try (subst h; rfl)
+  cases o <;> simp_all [isNumObj, objStr, Atom.strVal]
+
+theorem atomObj_num {a : Atom} {o : Obj} (h : AtomObj a o) : isNumObj o = a.isNum := by
+  cases a <;> simp only [AtomObj] at h <;> try (subst h; rfl)
+  simpa [Atom.isNum] using h
+
+theorem operandObj_str {a : Operand} {o : Obj} (h : OperandObj a o) : objStr o = a.strVal := by
+  cases a with
+  | atom a => exact atomObj_str h
+  | arr s0 els => obtain ⟨l, rfl, _⟩ := h; rfl
+  | dict s0 ents => obtain ⟨l, rfl⟩ := h; rfl
+
+theorem operandObj_num {a : Operand} {o : Obj} (h : OperandObj a o) : isNumObj o = a.isNum := by
+  cases a with
+  | atom a => exact atomObj_num h
+  | arr s0 els => obtain ⟨l, rfl, _⟩ := h; rfl
+  | dict s0 ents => obtain ⟨l, rfl⟩ := h; rfl
+
+theorem showArgs_string (name : Bytes) (o : Obj) (rest : List Obj) (ts : List ArgType) :
+    showArgs name (o :: rest) (.string :: ts) =
+      match objStr o with
+      | some v =>
+        (match showArgs name rest ts with
+         | .ok toks => .ok ((if name != opTj then [Tok.space] else []) ++ Tok.raw v :: toks)
+         | .err k => .err k | .panic p => .panic p)
+      | none => .err .guard := by
+  cases o <;> simp [showArgs, objStr, isNumObj] <;> cases showArgs name rest ts <;> rfl
+
+theorem showArgs_number (name : Bytes) (o : Obj) (rest : List Obj) (ts : List ArgType) :
+    showArgs name (o :: rest) (.number :: ts) =
+      if isNumObj o then showArgs name rest ts else .err .guard := by
+  cases o <;> simp [showArgs, isNumObj]
+
+theorem showArray_eq {els : List (Atom × Bytes)} {l : List Obj}
+    (h : All2 (fun e x => AtomObj e.1 x) els l) :
+    showArray l = toRes (tjTokens els) := by
+  induction h with
+  | nil => rfl
+  | @cons e o els l h1 _ ih =>
+    obtain ⟨a, s⟩ := e
+    have hs := atomObj_str h1
+    have hn := atomObj_num h1
+    simp only [tjTokens]
+    cases o with
+    | str v =>
+      simp only [objStr] at hs
+      simp only [showArray, ih, ← hs]
+      cases tjTokens els <;> rfl
+    | int i =>
+      simp only [objStr] at hs; simp only [isNumObj] at hn
+      simp only [showArray, isNumObj, ← hs, ← hn, ih]; rfl
+    | real n d =>
+      simp only [objStr] at hs; simp only [isNumObj] at hn
+      simp only [showArray, isNumObj, ← hs, ← hn, ih]; rfl
+    | arr _ | dict _ | ref _ _ | bool _ | name _ | null =>
+      simp only [objStr] at hs; simp only [isNumObj] at hn
+      simp [showArray, isNumObj, ← hs, ← hn, toRes]
+
+/-- what the operator `match` (lines 336-432) does, as data -/
+inductive HK where
+  | showN (name : Bytes) (oa : List ArgType)
+  | showArr (arity : Nat)
+  | space | bx | ex | nothing
+deriving DecidableEq
+
+def modelHK (ty : OpType) (name : Bytes) (oa : List ArgType) : HK :=
+  if ty == .textShow && (name == opTj || name == opQuote || name == opDQuote) then .showN name oa
+  else if ty == .textShow && name == opTJ then .showArr oa.length
+  else if ty == .textPositioning && (name == opTd || name == opTD || name == opTstar) then .space
+  else if ty == .textObject then .space
+  else if ty == .compat && name == opBX then .bx
+  else if ty == .compat && name == opEX then .ex
+  else .nothing
+
+def handleHK : HK → List Obj → Nat → Res (List Tok × Nat)
+  | .showN name oa, args, c =>
+    if args.length != oa.length then .err .guard
+    else match showArgs name args oa with
+      | .ok ts => .ok (ts, c) | .err k => .err k | .panic p => .panic p
+  | .showArr n, args, c =>
+    if args.length != n then .err .guard
+    else match args.getLast? with
+      | none => .ok ([], c)
+      | some (.arr l) =>
+        (match showArray l with
+         | .ok ts => .ok (ts, c) | .err k => .err k | .panic p => .panic p)
+      | some _ => .err .guard
+  | .space, _, c => .ok ([.space], c)
+  | .bx, _, c => .ok ([], c + 1)
+  | .ex, _, c => .ok ([], c - 1)
+  | .nothing, _, c => .ok ([], c)
+
+theorem handleOp_eq_HK (ty : OpType) (name : Bytes) (oa : List ArgType) (args : List Obj) (c : Nat) :
+    handleOp ty name oa args c = handleHK (modelHK ty name oa) args c := by
+  unfold handleOp modelHK
+  split
+  · simp only [handleHK]
+    split
+    · rfl
+    · cases showArgs name args oa <;> rfl
+  · split
+    · simp only [handleHK]
+      split
+      · rfl
+      · cases args.getLast? with
+        | none => rfl
+        | some o =>
+          cases o <;> rfl
+    · split
+      · rfl
+      · split
+        · rfl
+        · split
+          · rfl
+          · split <;> rfl
+
+/-- the same classification read off the SPEC side (Table 51 category + Table 109 arities) -/
+def specHK (name : Bytes) (c : Cat) : HK :=
+  if c = .textShowing then
+    if name = Fig9.Tj ∨ name = Fig9.quote then .showN name [.string]
+    else if name = Fig9.dquote then .showN name [.number, .number, .string]
+    else .showArr 1
+  else if c = .textObject then .space
+  else if name = Fig9.Td ∨ name = Fig9.TD ∨ name = Fig9.Tstar then .space
+  else if name = Fig9.BX then .bx
+  else if name = Fig9.EX then .ex
+  else .nothing
+
+/-- all 73 rows of the REGENERATED table: category known, dispatch and declared operand
+    classes as Table 109 says -/
+theorem table_rows_dispatch :
+    ∀ r ∈ Gen.operators, ∃ c, catOf r.1 = some c ∧ modelHK r.2.1 r.1 r.2.2 = specHK r.1 c
+      ∧ (c = .textShowing → (r.1 = Fig9.Tj ∨ r.1 = Fig9.quote ∨ r.1 = Fig9.dquote ∨ r.1 = Fig9.TJ)) := by
+  decide +kernel
+
+def compatStep (name : Bytes) (c : Nat) : Nat :=
+  if name = Fig9.BX then c + 1 else if name = Fig9.EX then c - 1 else c
+
+theorem all2_length {α β : Type} {R : α → β → Prop} {l₁ : List α} {l₂ : List β} (h : All2 R l₁ l₂) :
+    l₁.length = l₂.length := by
+  induction h with
+  | nil => rfl
+  | cons _ _ ih => simp [ih]
+
+theorem showArgs_nil (name : Bytes) (ts : List ArgType) : showArgs name [] ts = .ok [] := by
+  simp [showArgs]
+
+theorem atomObj_not_arr {a : Atom} {o : Obj} (h : AtomObj a o) : ∀ l, o ≠ .arr l := by
+  intro l hl; subst hl
+  cases a <;> simp [AtomObj, isNumObj] at h
+
+theorem handle_show1 (name : Bytes) (sp : Bool) (hsp : (name != opTj) = sp)
+    {operands : List Operand} {objs : List Obj} (c : Nat)
+    (hrel : All2 (fun a o => OperandObj a o) operands objs) :
+    handleHK (.showN name [.string]) objs c =
+      match (match operands with
+             | [a] => a.strVal.map (fun v => (if sp then [Tok.space] else []) ++ [Tok.raw v])
+             | _ => none) with
+      | none => .err .guard
+      | some tk => .ok (tk, c) := by
+  cases hrel with
+  | nil => simp [handleHK]
+  | @cons a o l₁ l₂ h1 hr =>
+    cases hr with
+    | nil =>
+      simp only [handleHK, showArgs_string, showArgs_nil, operandObj_str h1, hsp]
+      cases a.strVal <;> simp
+    | cons _ hr' =>
+      have := all2_length hr'
+      simp [handleHK, this]
+
+theorem handle_show3 (name : Bytes) (hsp : (name != opTj) = true)
+    {operands : List Operand} {objs : List Obj} (c : Nat)
+    (hrel : All2 (fun a o => OperandObj a o) operands objs) :
+    handleHK (.showN name [.number, .number, .string]) objs c =
+      match (match operands with
+             | [aw, ac, a] =>
+               if aw.isNum && ac.isNum then a.strVal.map (fun v => [Tok.space, Tok.raw v]) else none
+             | _ => none) with
+      | none => .err .guard
+      | some tk => .ok (tk, c) := by
+  cases hrel with
+  | nil => simp [handleHK]
+  | @cons a1 o1 _ _ h1 hr =>
+    cases hr with
+    | nil => simp [handleHK]
+    | @cons a2 o2 _ _ h2 hr =>
+      cases hr with
+      | nil => simp [handleHK]
+      | @cons a3 o3 _ _ h3 hr =>
+        cases hr with
+        | nil =>
+          simp only [handleHK, showArgs_number, showArgs_string, showArgs_nil, operandObj_str h3,
+            operandObj_num h1, operandObj_num h2, hsp]
+          cases a1.isNum <;> cases a2.isNum <;> cases a3.strVal <;> simp
+        | cons _ hr' =>
+          have := all2_length hr'
+          simp [handleHK, this]
+
+theorem handle_showArr {operands : List Operand} {objs : List Obj} (c : Nat)
+    (hrel : All2 (fun a o => OperandObj a o) operands objs) :
+    handleHK (.showArr 1) objs c =
+      match (match operands with
+             | [.arr _ els] => tjTokens els
+             | _ => none) with
+      | none => .err .guard
+      | some tk => .ok (tk, c) := by
+  cases hrel with
+  | nil => simp [handleHK]
+  | @cons a o l₁ l₂ h1 hr =>
+    cases hr with
+    | nil =>
+      cases a with
+      | atom a =>
+        have hna := atomObj_not_arr h1
+        cases o <;> simp_all [handleHK]
+      | arr s0 els =>
+        obtain ⟨l, rfl, hl⟩ := h1
+        have hsa := showArray_eq hl
+        simp only [handleHK]
+        cases htj : tjTokens els <;> simp [htj, toRes] at hsa <;> simp [hsa]
+      | dict s0 ents =>
+        obtain ⟨l, rfl⟩ := h1
+        simp [handleHK]
+    | cons _ hr' =>
+      have := all2_length hr'
+      simp [handleHK, this]
+
+theorem catOf_BX : catOf Fig9.BX = some .compatibility := by decide +kernel
+theorem catOf_EX : catOf Fig9.EX = some .compatibility := by decide +kernel
+
+theorem handleHK_spec {name : Bytes} {cat : Cat} {operands : List Operand} {objs : List Obj} (c : Nat)
+    (hrel : All2 (fun a o => OperandObj a o) operands objs)
+    (hcat : catOf name = some cat)
+    (hshow : cat = .textShowing →
+      name = Fig9.Tj ∨ name = Fig9.quote ∨ name = Fig9.dquote ∨ name = Fig9.TJ) :
+    handleHK (specHK name cat) objs c =
+      match instTokens cat name operands with
+      | none => .err .guard
+      | some tk => .ok (tk, compatStep name c) := by
+  by_cases hc : cat = .textShowing
+  · subst hc
+    rcases hshow rfl with rfl | rfl | rfl | rfl
+    · have h := handle_show1 Fig9.Tj false (by decide) c hrel
+      have e1 : specHK Fig9.Tj .textShowing = .showN Fig9.Tj [.string] := by decide
+      have e2 : compatStep Fig9.Tj c = c := by simp [compatStep, Fig9.Tj, Fig9.BX, Fig9.EX]
+      rw [e1, e2, h]
+      simp only [instTokens, showTokens, if_true]
+      cases operands with
+      | nil => rfl
+      | cons a t => cases t with
+        | nil => cases a.strVal <;> simp
+        | cons _ _ => rfl
+    · have h := handle_show1 Fig9.quote true (by decide) c hrel
+      have e1 : specHK Fig9.quote .textShowing = .showN Fig9.quote [.string] := by decide
+      have e2 : compatStep Fig9.quote c = c := by simp [compatStep, Fig9.quote, Fig9.BX, Fig9.EX]
+      have e3 : (Fig9.quote = Fig9.Tj) = False := by simp [Fig9.quote, Fig9.Tj]
+      rw [e1, e2, h]
+      simp only [instTokens, showTokens, if_true, e3, if_false]
+      cases operands with
+      | nil => rfl
+      | cons a t => cases t with
+        | nil => cases a.strVal <;> simp
+        | cons _ _ => rfl
+    · have h := handle_show3 Fig9.dquote (by decide) c hrel
+      have e1 : specHK Fig9.dquote .textShowing = .showN Fig9.dquote [.number, .number, .string] := by decide
+      have e2 : compatStep Fig9.dquote c = c := by simp [compatStep, Fig9.dquote, Fig9.BX, Fig9.EX]
+      have e3 : (Fig9.dquote = Fig9.Tj) = False := by simp [Fig9.dquote, Fig9.Tj]
+      have e4 : (Fig9.dquote = Fig9.quote) = False := by simp [Fig9.dquote, Fig9.quote]
+      rw [e1, e2, h]
+      simp only [instTokens, showTokens, if_true, e3, e4, if_false]
+      rcases operands with _ | ⟨a1, _ | ⟨a2, _ | ⟨a3, _ | ⟨a4, t⟩⟩⟩⟩ <;> rfl
+    · have h := handle_showArr c hrel
+      have e1 : specHK Fig9.TJ .textShowing = .showArr 1 := by decide
+      have e2 : compatStep Fig9.TJ c = c := by simp [compatStep, Fig9.TJ, Fig9.BX, Fig9.EX]
+      have e3 : (Fig9.TJ = Fig9.Tj) = False := by simp [Fig9.TJ, Fig9.Tj]
+      have e4 : (Fig9.TJ = Fig9.quote) = False := by simp [Fig9.TJ, Fig9.quote]
+      have e5 : (Fig9.TJ = Fig9.dquote) = False := by simp [Fig9.TJ, Fig9.dquote]
+      rw [e1, e2, h]
+      simp only [instTokens, showTokens, if_true, e3, e4, e5, if_false]
+      rcases operands with _ | ⟨a, _ | ⟨b, t⟩⟩
+      · rfl
+      · cases a <;> rfl
+      · cases a <;> rfl
+  · have hbx : name = Fig9.BX → cat = .compatibility := by
+      intro h; subst h; rw [catOf_BX] at hcat; injection hcat with h; exact h.symm
+    have hex : name = Fig9.EX → cat = .compatibility := by
+      intro h; subst h; rw [catOf_EX] at hcat; injection hcat with h; exact h.symm
+    simp only [specHK, instTokens, hc, if_false]
+    by_cases hto : cat = .textObject
+    · have n1 : name ≠ Fig9.BX := fun h => by have := hbx h; rw [this] at hto; cases hto
+      have n2 : name ≠ Fig9.EX := fun h => by have := hex h; rw [this] at hto; cases hto
+      simp [hto, handleHK, compatStep, n1, n2]
+    · simp only [hto, if_false]
+      by_cases hp : name = Fig9.Td ∨ name = Fig9.TD ∨ name = Fig9.Tstar
+      · have n1 : name ≠ Fig9.BX := by
+          rcases hp with rfl | rfl | rfl <;> simp [Fig9.Td, Fig9.TD, Fig9.Tstar, Fig9.BX]
+        have n2 : name ≠ Fig9.EX := by
+          rcases hp with rfl | rfl | rfl <;> simp [Fig9.Td, Fig9.TD, Fig9.Tstar, Fig9.EX]
+        simp [hp, handleHK, compatStep, n1, n2]
+      · simp only [hp, if_false]
+        by_cases h1 : name = Fig9.BX
+        · simp [h1, handleHK, compatStep]
+        · by_cases h2 : name = Fig9.EX
+          · have : Fig9.EX ≠ Fig9.BX := by simp [Fig9.EX, Fig9.BX]
+            simp [h2, handleHK, compatStep, this]
+          · simp [h1, h2, handleHK, compatStep]
+
+theorem runToks_vals (st : PState) (c : Nat) (objs : List Obj) :
+    ∀ (acc : List Obj) (rest : List CSObj),
+      runToks st c acc (objs.map CSObj.val ++ rest) = runToks st c (acc ++ objs) rest := by
+  induction objs with
+  | nil => intro acc rest; simp
+  | cons o t ih =>
+    intro acc rest
+    simp only [List.map_cons, List.cons_append, runToks]
+    rw [ih]; simp
+
+theorem all2_map_fst {args : List (Operand × Bytes)} {objs : List Obj}
+    (h : All2 (fun (a : Operand × Bytes) o => OperandObj a.1 o) args objs) :
+    All2 (fun a o => OperandObj a o) (args.map (·.1)) objs := by
+  induction h with
+  | nil => exact .nil
+  | cons h1 _ ih => exact .cons h1 ih
+
+/-- the state machine + operand handling of the implementation, run over the token sequence
+    of ANY list of operator instances from ANY state, is the Figure-9 run of the spec -/
+theorem runToks_insts {insts : List Inst} {toks : List CSObj} (h : InstsToks insts toks) :
+    ∀ (st : PState) (c : Nat), runToks st c [] toks = toRes (run (nodeOf st) c insts) := by
+  induction h with
+  | nil => intro st c; rfl
+  | @cons i rest objs ts hargs _ ih =>
+    intro st c
+    rw [runToks_vals]
+    simp only [List.nil_append, runToks, run]
+    cases hop : opinfo i.op with
+    | none =>
+      simp only [opinfo_none_catOf hop]
+      split
+      · exact ih st c
+      · rfl
+    | some info =>
+      obtain ⟨ty, oa⟩ := info
+      have mem := opinfo_some_mem hop
+      obtain ⟨cat, hcat, hdisp, hshow⟩ := table_rows_dispatch _ mem
+      simp only at hcat hdisp hshow
+      have htr := transition_table_eq_fig9 st i.op
+      rw [hop] at htr
+      simp only at htr
+      simp only [hcat]
+      cases hn : nextState st ty i.op with
+      | none =>
+        rw [hn] at htr
+        simp only [Option.map_none] at htr
+        simp only [← htr]; rfl
+      | some nx =>
+        rw [hn] at htr
+        simp only [Option.map_some] at htr
+        simp only [← htr]
+        rw [handleOp_eq_HK, hdisp, handleHK_spec c (all2_map_fst hargs) hcat hshow]
+        cases hit : instTokens cat i.op (List.map (fun x => x.1) i.args) with
+        | none => rfl
+        | some tk =>
+          simp only [compatStep]
+          rw [ih]
+          cases run (nodeOf nx) (if i.op = Fig9.BX then c + 1 else if i.op = Fig9.EX then c - 1 else c) rest <;> rfl
+
 end Parsley.C12
